@@ -36,6 +36,8 @@ static int build(int cfg)
     NC.n_rpdo = 1; NC.rpdo[0].present = 1; NC.rpdo[0].cobid = 0x201; NC.rpdo[0].type = 255; NC.rpdo[0].nmap = 1; NC.rpdo[0].map[0] = NC_MAP(0x2110, 0, 8);
     NC.n_tpdo = 2; NC.tpdo[0].present = 1; NC.tpdo[0].cobid = 0x40000181u; NC.tpdo[0].type = 254; NC.tpdo[0].nmap = 1; NC.tpdo[0].map[0] = NC_MAP(0x2100, 0, 8);
     NC.tpdo[1].present = 1; NC.tpdo[1].cobid = 0x40000281u; NC.tpdo[1].type = 1; NC.tpdo[1].nmap = 1; NC.tpdo[1].map[0] = NC_MAP(0x2111, 0, 16);
+    /* transmission type 0: the value the freshly cleared SYNC tables hold as well */
+    NC.n_tpdo = 3; NC.tpdo[2].present = 1; NC.tpdo[2].cobid = 0x40000381u; NC.tpdo[2].type = 0; NC.tpdo[2].nmap = 1; NC.tpdo[2].map[0] = NC_MAP(0x2110, 0, 8);
     NC.csdo = 1;
     NC.operational = (cfg == 2);
     RESET_CS = (cfg == 1 || cfg == 3 || cfg == 4) ? 129 : 130;
